@@ -590,6 +590,12 @@ func randomCodecPlan(g *val.Gen, mt protoreflect.MessageType, mode string, emit 
 		v2 := proj.Project(d2.ProtoReflect(), proj.WrapNone)
 		emit(Op{Op: "lib", V: v2, Tag: "lib"})
 		emit(Op{Op: "marshal", Det: true, Tag: "lib"})
+		// near-equal variants: Equal must tell a single difference, wherever it is
+		for k := 0; k < 3; k++ {
+			near := proj.Project(g.Mutate(d).ProtoReflect(), proj.WrapNone)
+			emit(Op{Op: "load", T: t, V: v})
+			emit(Op{Op: "lib", V: near, Tag: "lib-near"})
+		}
 		emit(Op{Op: "lib", V: v, Tag: "lib-self"}) // merge the original value onto the merged one
 		emit(Op{Op: "reset", Tag: "lib"})
 		emit(Op{Op: "lib", V: v2, Tag: "lib-onto-empty"})
